@@ -525,7 +525,8 @@ def check_snapshots(ctx, programs, tag):
         snaps += [s for s in ss if s["live"] is not None and len(s["boxes"]) == s["n"]]
     unknown_kinds = set()
     terms = ['run_snapshot_w "%s"' % snap_wire(s, unknown_kinds) for s in snaps]
-    vals = yvlib.coq_eval(["YV:CollectRun"], terms, shard_size=max(1, (len(terms) + yvlib.NPROC - 1) // yvlib.NPROC),
+    # small shards: one slow coqc process (shared machine) must not hit coq_eval's per-shard timeout
+    vals = yvlib.coq_eval(["YV:CollectRun"], terms, shard_size=max(1, min(12, (len(terms) + yvlib.NPROC - 1) // yvlib.NPROC)),
                           tag="C01" + tag, preamble="Open Scope string_scope.")
     if unknown_kinds:
         ctx.corr_broken.append("heap holds boxes of a type the model has no kind for: %s" % ", ".join(sorted(unknown_kinds)))
@@ -665,7 +666,7 @@ def run(ctx):
 
     # (b) collector algorithm on snapshots
     progs = list(SNAP_PROGRAMS)
-    rs = random_snapshot_programs(rng, 16 if quick else 200)
+    rs = random_snapshot_programs(rng, 16 if quick else 80)
     progs += [s for s, rg in rs]
     nsnap, nsnap_nontriv = check_snapshots(ctx, progs, "snap")
 
